@@ -14,28 +14,8 @@
 int nondet_int(void); @R@ nondet_real(void); _Bool nondet_bool(void);
 void verif_abort(char *msg) { __CPROVER_assume(0); }
 
-/* ---------------- ghost call log ---------------- */
-int g_seq;                    /* number of stub calls so far */
-int g_xerbla_calls, g_xerbla_arg;
-int g_at_StatAlloc, g_at_StatFree, g_at_gsequ, g_at_laqgs, g_at_colorder, g_at_strf, g_at_growth,
-    g_at_langs, g_at_gscon, g_at_gstrs, g_at_gsrfs, g_at_query, g_at_destroyAC, g_at_destroyAA,
-    g_at_create, g_at_strf_init, g_at_finalize, g_at_malloc, g_at_free;
-int g_n_gstrs, g_n_strf, g_n_gsrfs, g_n_gscon, g_n_malloc, g_n_free, g_n_gsequ, g_n_laqgs, g_n_growth, g_n_query;
-trans_t g_gstrs_trans, g_gsrfs_trans, g_init_trans;
-char g_langs_norm, g_gscon_norm;
-SuperMatrix *g_gstrs_B, *g_strf_A, *g_gsrfs_A, *g_gsrfs_B, *g_gsrfs_X, *g_langs_A, *g_growth_A, *g_colorder_A, *g_gsequ_A, *g_laqgs_A, *g_create_A;
-SuperMatrix *g_gstrs_L, *g_gstrs_U;
-int_t *g_gstrs_perm_r, *g_gstrs_perm_c;
-int_t g_growth_ncols;
-equed_t g_gsrfs_equed;
-int_t g_strf_info;            /* what the factorization stub reported */
-int_t g_gsequ_info;
-@R@ g_rcond_out;
-void *g_create_nzval, *g_create_rowind, *g_create_colptr; int_t g_create_m, g_create_n, g_create_nnz; Stype_t g_create_stype;
-/* stub inputs chosen by the unit (left nondeterministic by DFCC's havoc of statics) */
-int_t g_cfg_strf_info;        /* info value p?gstrf returns */
-equed_t g_cfg_equed;          /* what ?laqgs reports */
-
+#define GX
+#include "drv_ghost.h"
 #define LOG(at) do { g_seq++; (at) = g_seq; } while (0)
 
 int xerbla_(char *s, int *i) { g_xerbla_arg = *i; g_xerbla_calls++; return 0; }
@@ -56,7 +36,7 @@ void *superlu_malloc(size_t size) {
 #ifdef MALLOC_CAN_FAIL
   if (nondet_bool()) return NULL;
 #endif
-  return malloc(size);
+  { void *p_ = malloc(size); __CPROVER_assume(p_ != NULL); return p_; }
 }
 void superlu_free(void *p) { LOG(g_at_free); g_n_free++; free(p); }
 
@@ -93,7 +73,6 @@ void @p@laqgs(SuperMatrix *A, @R@ *r, @R@ *c, @R@ rowcnd, @R@ colcnd, @R@ amax, 
   __CPROVER_assume(g_cfg_equed == NOEQUIL || g_cfg_equed == ROW || g_cfg_equed == COL || g_cfg_equed == BOTH);
   *equed = g_cfg_equed;      /* values of A are scaled in place: A's nzval is not modelled here */
 }
-static void *g_AC_token;
 void sp_colorder(SuperMatrix *A, int_t *perm_c, superlumt_options_t *o, SuperMatrix *AC) {
   LOG(g_at_colorder); g_colorder_A = A;
   g_AC_token = malloc(sizeof(NCPformat)); __CPROVER_assume(g_AC_token != NULL);
@@ -125,7 +104,7 @@ void p@p@gstrf(superlumt_options_t *o, SuperMatrix *A, int_t *perm_r, SuperMatri
 }
 @R@ @p@langs(char *norm, SuperMatrix *A) { LOG(g_at_langs); g_langs_norm = *norm; g_langs_A = A; return nondet_real(); }
 void @p@gscon(char *norm, SuperMatrix *L, SuperMatrix *U, @R@ anorm, @R@ *rcond, int_t *info) {
-  LOG(g_at_gscon); g_n_gscon++; g_gscon_norm = *norm; g_rcond_out = nondet_real(); *rcond = g_rcond_out; *info = 0;
+  LOG(g_at_gscon); g_n_gscon++; g_gscon_norm = *norm; g_rcond_out = nondet_real(); __CPROVER_assume(g_rcond_out == g_rcond_out); *rcond = g_rcond_out; *info = 0;
 }
 void @p@gstrs(trans_t trans, SuperMatrix *L, SuperMatrix *U, int_t *perm_r, int_t *perm_c, SuperMatrix *B, Gstat_t *G, int_t *info) {
   LOG(g_at_gstrs); g_n_gstrs++; g_gstrs_trans = trans; g_gstrs_B = B; g_gstrs_L = L; g_gstrs_U = U;
